@@ -21,6 +21,8 @@ try:
     t0 = time.time()
     rc, out = sh("VERIF_REPO=%s ./check %s --tier quick" % (W, pid), cwd="/verif")
     res["check_quick"] = {0: "SILENT", 1: "ALARM", 2: "INCONCLUSIVE"}.get(rc, "rc=%d" % rc)
+    if rc == 1 and ("VIOLATION property=%s " % pid) not in out:
+        res["check_quick"] = "DRIVER-ERROR"
     res["wall_s"] = round(time.time() - t0, 1)
     if rc != 0:
         res["lines"] = [l[:400] for l in out.splitlines() if "VIOLATION clause" in l or "inconclusive:" in l][:6]
